@@ -24,12 +24,11 @@ def lattice_ok(rows, N):
         c = np.round(sol)
         if np.allclose(N @ c, d) and (c >= -1e-9).all():
             continue
-        ok = False
-        for c in itertools.product(range(0, 7), repeat=R):
-            if np.allclose(N @ np.array(c), d):
-                ok = True
-                break
-        if not ok:
+        # exact decision: integer feasibility of N c = d, c >= 0 (the earlier bounded enumeration 0..6 per reaction raised a false alarm on a
+        # step of +15 in one species between two rows)
+        from scipy.optimize import milp, LinearConstraint, Bounds
+        r = milp(np.zeros(R), constraints=LinearConstraint(N, d, d), integrality=np.ones(R), bounds=Bounds(0, np.inf))
+        if not (r.success and np.allclose(N @ np.round(r.x), d)):
             return False, (a.tolist(), b.tolist())
     return True, None
 
@@ -104,6 +103,20 @@ def main():
             n += 1
             if (res < 0).any():
                 return dict(reproduced=True, call='safe volume simulation %r of %r from %r' % (mode, rx, x0), observed=float(res.min()), expected='>= 0')
+    # 5. mass action with a repeated reactant (orders up to 4) in EVERY stochastic simulator, plain (not safe) interface: counts stay
+    #    non-negative because the stochastic rate is the falling factorial, also when it is divided by a power of the volume
+    for it in range(SPEC.get('rounds_modes', 16)):
+        m = rng.randint(2, 3)
+        rx = [(['A'] * m + (['B'] if (m == 2 or rng.random() < 0.5) else []), ['C'], 'massaction', {'k': rng.uniform(1, 6)}),
+              (['C'], ['B'], 'massaction', {'k': rng.uniform(0.2, 1)})]
+        x0 = {'A': rng.choice([3, 5, 7, 4, 8]), 'B': rng.randint(2, 5), 'C': 0}      # mostly not a multiple of the multiplicity: a remainder is left over
+        M = Model(species=sorted(x0), reactions=rx, initial_condition_dict=x0)
+        for mode in (dict(), dict(delay=True), dict(volume=1.0), dict(volume=0.5), dict(delay=True, volume=1.0)):
+            py_seed_random(rng.randint(1, 10 ** 6))
+            res = py_simulate_model(T, Model=M, stochastic=True, return_dataframe=False, **mode).py_get_result()
+            n += 1
+            if (res < 0).any():
+                return dict(reproduced=True, call='stochastic simulation %r of %r from %r' % (mode, rx, x0), observed=float(res.min()), expected='>= 0')
     return dict(reproduced=False, evaluations=n)
 
 
